@@ -16,7 +16,7 @@ set_option linter.unusedSimpArgs false
 set_option linter.unusedTactic false
 set_option linter.unreachableTactic false
 
-section BitFacts
+namespace KBits
 
 theorem popcount_zero : popcount 0 = 0 := by simp [popcount]
 
@@ -120,7 +120,8 @@ theorem xor_xor_two_pow {i j : Nat} (h : i ≠ j) (idx : Nat) :
     idx ^^^ 2 ^ i ^^^ 2 ^ j = idx ^^^ (2 ^ i ||| 2 ^ j) := by
   rw [two_pow_or_eq_xor h, Nat.xor_assoc]
 
-end BitFacts
+end KBits
+open KBits
 
 section OneQubit
 variable {R : Type} [CommRing R] [Consts R]
